@@ -705,6 +705,9 @@ class Eval:
                 raise Unsupported(f'pointer arithmetic on a pointer with unknown element size: {p}')
             l = index_linear(n) if isinstance(n, tuple) else {repr(n): Fraction(1)}
             return p.add_bytes({k: v * p.elem for k, v in l.items()})
+        if c in ('core::ptr::const_ptr::cast', 'core::ptr::mut_ptr::cast', 'core::ptr::const_ptr::cast_mut', 'core::ptr::mut_ptr::cast_const') and isinstance(args[0], Ptr):
+            # `p.cast::<U>()` is `p as *const U`: same address, the element size of the new pointee
+            return Ptr(args[0].base, args[0].off, sizeof(pointee(dty)) if pointee(dty) else args[0].elem)
         if last in ('as_ptr', 'as_mut_ptr') and c.startswith(('core::slice', 'generic_array', 'alloc::vec')):
             a = args[0]
             el = sizeof(pointee(dty)) if pointee(dty) else None
@@ -712,11 +715,38 @@ class Eval:
                 return Ptr(('local', a[1]), {}, el)
             if isinstance(a, tuple) and a and a[0] == 'sublocal':
                 return Ptr(('local', a[1]), {'': Fraction(a[2] * (el or 1))}, el)
-            return Ptr(('slice', strip(a)), {}, el)
+            if isinstance(a, tuple) and a and a[0] == 'sublocalx' and el:
+                l_ = index_linear(a[2]) if isinstance(a[2], tuple) else {repr(a[2]): Fraction(1)}
+                return Ptr(('local', a[1]), {}, el).add_bytes({k_: v_ * el for k_, v_ in l_.items()})
+            # `row[off..].as_ptr()` with `row` a row of a matrix: the row's own pointer, `off` elements further (a range-indexed sub-slice of
+            # a parameter slice is left to the rules, which also need the facts its index expression carries)
+            sa = strip(a)
+            offs, inner = [], sa
+
+            def _range_kind(r):
+                return r[1][2] if isinstance(r, tuple) and len(r) == 3 and r[0] == 'agg' and isinstance(r[1], tuple) and len(r[1]) > 2 and str(r[1][1]).startswith('core::ops::range::') else None
+            while isinstance(inner, tuple) and len(inner) == 3 and inner[0] == 'call' and inner[1].endswith(('::index', '::index_mut')) and len(inner[2]) == 2 \
+                    and _range_kind(strip(inner[2][1])) in ('RangeFrom', 'Range', 'RangeTo', 'RangeFull'):
+                r = strip(inner[2][1])
+                if _range_kind(r) in ('RangeFrom', 'Range'):
+                    offs.append(r[2][0])
+                inner = strip(inner[2][0])
+            # (sub-slices of a parameter slice, directly or through split_at, stay symbolic: see rules/kernels.subslice_view)
+            param_rooted = isinstance(inner, tuple) and inner and (inner[0] == 'p' or (inner[0] == 'fld' and isinstance(inner[1], tuple) and inner[1] and inner[1][0] == 'call'
+                                                                    and str(inner[1][1]).endswith(('split_at', 'split_at_mut'))))
+            if offs and el and not param_rooted:
+                p_ = Ptr(('slice', inner), {}, el)
+                for o_ in offs:
+                    l_ = index_linear(o_) if isinstance(o_, tuple) else {repr(o_): Fraction(1)}
+                    p_ = p_.add_bytes({k_: v_ * el for k_, v_ in l_.items()})
+                return p_
+            return Ptr(('slice', sa), {}, el)
         if last in ('index', 'index_mut') and isinstance(args[0], tuple) and args[0] and args[0][0] == 'reflocal':
             r = args[1]
             if isinstance(r, tuple) and r[0] == 'agg' and isinstance(r[1], tuple) and r[1][1].endswith('RangeFrom') and r[2][0][0] == 'k':
                 return ('sublocal', args[0][1], r[2][0][1])
+            if isinstance(r, tuple) and r[0] == 'agg' and isinstance(r[1], tuple) and r[1][1].endswith('RangeFrom') and len(r[2]) == 1:
+                return ('sublocalx', args[0][1], r[2][0])       # local[expr..]
             return ('idxlocal', args[0][1], r)
         if c == 'core::mem::size_of':
             full = t.get('callee_full') or ''
